@@ -316,10 +316,15 @@ class Path:
         self.heap = {}     # name of an opaque pointer-like aggregate -> Cell of its abstract pointee (shared by copies)
 
 
+_FRAME_UID = [0]
+
+
 class Frame:
     def __init__(self, func):
         self.func = func
         self.cells = {}
+        _FRAME_UID[0] += 1
+        self.uid = _FRAME_UID[0]   # survives deepcopy: identifies the activation, not the Python object
         self.ret_dest = None  # place AST in the caller frame
         self.ret_bb = None
 
@@ -761,7 +766,7 @@ class Executor:
                 if steps > 400000:
                     raise Unsupported("step budget exceeded")
                 frame = st.frames[-1]
-                k = (len(st.frames), frame.func.name, st.bb)
+                k = (frame.uid, st.bb)
                 st.path.visits[k] = st.path.visits.get(k, 0) + 1
                 if st.path.visits[k] > self.loop_bound + 1:
                     st.path.cut = f"loop bound {self.loop_bound} exceeded at {frame.func.name.split('::')[-1]}:{st.bb}"
